@@ -438,7 +438,7 @@ def run(tier):
         "programs": state["batch"],
     }
     write_evidence("C11", tier, coverage, time.time() - start, n_viol,
-                   ["identifiers are restricted to words of the shape [A-Z]?[a-z]+ joined by '_' (the shape of all catalogue identifiers); other spellings depend on convert_case, which the statement does not fix",
+                   ["identifiers are words of the shape [A-Z]?[a-z]+ (at least two letters), optionally camel-case compounds of such words (MilesPer), joined by '_' (also doubled, leading or trailing); spellings with digits, single letters or acronyms depend on convert_case's word splitting, which the statement does not fix",
                     "scale values are kept at least 1e-6 (relative) apart unless equal, so that the macro's f64-based ordering cannot differ from the exact order"])
     if n_viol:
         return 1
